@@ -139,8 +139,12 @@ def build_harness(name, variant="o1", with_cli=False, matchcompile=False, extra=
         newest = max([os.path.getmtime(use)] + [os.path.getmtime(o) for o in objs])
         if os.path.exists(exe) and os.path.getmtime(exe) >= newest:
             return exe, ""
-        cmd = ["g++"] + harness_cxxflags(variant) + ["-I" + os.path.join(VERIF, "harness"), use, "-o", exe] + objs + LINKFLAGS[variant] + ["-lpthread"] + list(extra)
-        r = subprocess.run(cmd, stdout=subprocess.PIPE, stderr=subprocess.STDOUT, text=True)
+        cmd = ["g++"] + harness_cxxflags(variant) + ["-I" + os.path.join(VERIF, "harness"), use, "-o", exe + ".tmp"] + objs + LINKFLAGS[variant] + ["-lpthread"] + list(extra)
+        # hold the repo build lock while linking: another check's ninja run must not rewrite the objects under us
+        with Lock("repo-" + variant):
+            r = subprocess.run(cmd, stdout=subprocess.PIPE, stderr=subprocess.STDOUT, text=True)
+        if r.returncode == 0:
+            os.replace(exe + ".tmp", exe)
         if r.returncode != 0:
             return None, r.stdout
         return exe, r.stdout
